@@ -138,7 +138,7 @@ theorem place_items_renderW
     (h : (Wd.list st cm columns cw spacing kp u nw items).render cc w = .ok r)
     (sh : ListShape cc cm columns cw spacing kp items w r items' labels)
     (hfit : ∀ i, (hi : i < items.length) →
-      RespectsWidth cc items[i] (usedWidth cw columns spacing w - labelLen labels i))
+      RespectsWidth cc items[i] (usedWidth cw columns spacing w - kpLabelLen kp i))
     (i : Nat) (hi : i < items'.length) (a b : Nat) (ha : a < items'[i].lines.length)
     (hb : b < (items'[i].lines[a]).length) :
     cell r.lines
@@ -167,7 +167,7 @@ theorem place_labels_renderW
     (h : (Wd.list st cm columns cw spacing kp u nw items).render cc w = .ok r)
     (sh : ListShape cc cm columns cw spacing kp items w r items' labels)
     (hfit : ∀ i, (hi : i < items.length) →
-      RespectsWidth cc items[i] (usedWidth cw columns spacing w - labelLen labels i))
+      RespectsWidth cc items[i] (usedWidth cw columns spacing w - kpLabelLen kp i))
     (i : Nat) (hi : i < items.length) (a b : Nat) (ha : a < (labelBuf labels i).length)
     (hb : b < ((labelBuf labels i)[a]).length) :
     cell r.lines
